@@ -55,6 +55,32 @@ func (d *devState) hash() string {
 	return hex.EncodeToString(h[:8])
 }
 
+// applyAnswer: the device has asked an interactive question instead of showing its prompt and a line
+// arrives.  Result: what that line is for the device.
+//
+//	callhome  ASA, first `configure terminal` of a device where it has not been decided yet:
+//	          "Would you like to enable anonymous error reporting to help improve the product?
+//	          [Y]es, [N]o, [A]sk later:" — Y writes `call-home reporting anonymous`, N writes
+//	          `no call-home reporting anonymous` into the running configuration (both a CHANGE);
+//	          A (ask later) and anything else leave the configuration alone
+//	confirm   "[confirm]": the line confirms (empty, y…) or refuses the command that was asked about;
+//	          the commands of a compare session that can be asked about are reads: no change
+//	more      "--More--" pager: the line pages on or quits; no change
+func (d *devState) applyAnswer(question, line string) string {
+	l := strings.ToLower(strings.TrimSpace(line))
+	if question == "callhome" {
+		switch {
+		case l == "y" || l == "yes":
+			d.Running = append(d.Running, "call-home reporting anonymous")
+			return "change"
+		case l == "n" || l == "no":
+			d.Running = append(d.Running, "no call-home reporting anonymous")
+			return "change"
+		}
+	}
+	return "answer"
+}
+
 func hasAnyPrefix(s string, ps ...string) bool {
 	for _, p := range ps {
 		if strings.HasPrefix(s, p) {
